@@ -1,6 +1,7 @@
 """C13 - sum_chains: chained weights add up to the original sum or objective"""
 from __future__ import annotations
 
+import corr_sumagg
 import semcheck
 import tgen
 import semprop
@@ -12,9 +13,13 @@ RULE = ('oracle cases = programs harvested from /repo/tests (sum_aggregates firs
 EXTRA = ['{ shift(D,L) : pshift(D,L) } 1 :- day(D). #minimize { L@L,D : shift(D,L) }.', '{ shift(D,L) : pshift(D,L) } 1 :- day(D). :~ overtime(D,L). [L@1,D] :~ shift(D,L). [L@1,D] {overtime(D,L)} :- pshift(D,L).', '{ shift(D,L) : pshift(D,L) } 1 :- day(D). long_hours(S) :- S = #sum{L,D : shift(D,L), L > 8}.', '{ shift(D,L) : pshift(D,L) } 1 :- day(D). a(X) :- X = #sum{L,D : shift(D,L)}.']
 
 
+def corr(rng, quick):
+    return corr_sumagg.run(rng, 60 if quick else 2500, corpus_limit=60 if quick else None)
+
+
 def run(ctx) -> int:
     flags = [semcheck.flags_only("sum_chains")]
-    return _generic.run_semantic(ctx, MODULE, LEVEL, RULE, flags, 'voc', {'sum_aggregates'}, EXTRA, (110, 700), (80, 3000),
+    return _generic.run_semantic(ctx, MODULE, LEVEL, RULE, flags, 'voc', {'sum_aggregates'}, EXTRA, (110, 700), (80, 3000), corr=[('sumagg', corr)],
                                  n_inst=5, facts_over='in', outp_choices=('auto',), one_to_one=True, generators=[tgen.GENERATORS['sum_chains']],
                                  assumptions=("the pass's syntactic decisions are not derived from the ground-level side conditions in Lean (validated by the oracle)", 'instances range over the declared/auto-detected input predicates only'))
 
